@@ -22,6 +22,10 @@ Roots ==
   \cup { MCall(a, "hecho", <<>>) : a \in Args } \cup { MCall(a, "hecho", <<b>>) : a \in Args, b \in Args } \cup { MCall(a, "hecho", <<b, A2>>) : a \in Args, b \in Args }
   \cup { Echo(<<Echo(<<a>>), MCall(a, "hecho", <<>>)>>) : a \in Args }
   \cup { Bin("+", Echo(<<A1>>), Echo(<<A2>>)), Idx(Echo(<<A1, A2>>), A1), Call("size", <<Echo(<<A1, A2>>)>>) }
+  \* the same call written twice / reached twice with equal arguments: once per call site REACHED, no remembering of results
+  \cup { Bin("+", Echo(<<A1>>), Echo(<<A1>>)), ListE(<<Call("hzero", <<>>), Call("hzero", <<>>)>>), ListE(<<MCall(A1, "hecho", <<>>), Echo(<<A1>>)>>),
+          Macro("map", Lit(List(<<I(1), I(1), I(2)>>)), "x", Echo(<<X>>)), Macro("map", Lit(List(<<I(1), I(1)>>)), "x", Call("hzero", <<>>)),
+          Echo(<<Echo(<<A1>>), Echo(<<A1>>)>>) }
   \cup Fail
   \* an argument whose evaluation fails: the call is that error (the function is not invoked with a non-value)
   \cup { Echo(<<ErrArg>>), Echo(<<A1, ErrArg>>), Echo(<<ErrArg, A2>>), MCall(ErrArg, "hecho", <<>>), MCall(A1, "hecho", <<ErrArg>>), Call("hzero", <<ErrArg>>) }
